@@ -2138,3 +2138,5 @@ func relPkgOfGlobal(g *ssa.Global) string {
 	}
 	return strings.TrimPrefix(strings.TrimPrefix(g.Pkg.Pkg.Path(), Mod), "/")
 }
+
+func lastInstr(b *ssa.BasicBlock) ssa.Instruction { return b.Instrs[len(b.Instrs)-1] }
